@@ -2,7 +2,8 @@
 C17 - Identity attestations and token disclosure require the owner's consent.
 
 Three real ``IdentityCommunity`` nodes (attester T, honest subject B, dishonest subject D; fixture keys, in-memory
-databases, fully introduced) on SimNet.  Explicit-state BFS (``core.bfs``) over histories of user actions
+databases, verified peers of each other) on SimNet.  Explicit-state BFS (the discipline of ``core.bfs``, own driver
+that also collects per-transition statistics) over histories of user actions
 (registrations, attestation requests, self-advertisements), virtual time steps, and adversarial traffic (replayed
 disclosures from either address, a stolen chain re-disclosed under another signature, token requests from permitted
 and unpermitted peers, forged / third-party / altered attestations).  Every datagram a node sends is judged, at the
@@ -45,7 +46,8 @@ EXPLANATION = (
     "BFS over histories of user actions (T.add_known_hash, B/D.request_attestation_advertisement, B.self_advertise), "
     "virtual time steps (299 s / 301 s) and adversarial datagrams (replay of a recorded disclosure from its own or the "
     "other subject's address, B's chain re-disclosed under D's signature, RequestMissing from T / D, attest messages "
-    "that are valid, third-party signed, address-spoofed or altered) on three real IdentityCommunity nodes; after every "
+    "that are valid, third-party signed, address-spoofed or altered, a disclosure that carries the subject's own "
+    "attestation over the disclosed metadata) on three real IdentityCommunity nodes; after every "
     "event the network is drained FIFO and every AttestPayload / MissingResponsePayload a real node sends is judged by "
     "the consent-table reference at the moment it is sent; every Attestations row of every database is re-verified "
     "after every event.  Hash and name indices are introduced in order (symmetry).  States are merged on a digest of "
